@@ -88,4 +88,18 @@ theorem src_get_address_ranges_for_area_eq_model (fm : FMap) (y0 x0 c0 ey ex ez 
       .ok ((getAddressRangesForArea fm y0 x0 c0 ey ex ez).map SrcNpuAccess.pyAR) :=
   SrcNpuAccess.garfa fm y0 x0 c0 ey ex ez sd sh sw hs
 
+/-- `ranges_overlap(range1, range2)`: same region and overlapping address intervals -/
+theorem src_ranges_overlap_eq_model (a b : ARange) :
+    ranges_overlap (.py a.address) (.py a.length) (.py a.region) (.py b.address) (.py b.length) (.py b.region) =
+      .ok (rangesOverlap a b) :=
+  SrcNpuAccess.rov a b
+
+/-- `range_lists_overlap(list1, list2)`: the two nested loops with their `continue` on `None` entries and the
+    early `return True`, on lists of any length: the model's `rangeListsOverlap` of the lists without the
+    `None`s (which is how the model represents them) -/
+theorem src_range_lists_overlap_eq_model (l1 l2 : List (Option ARange)) :
+    range_lists_overlap (l1.map SrcNpuAccess.pyOAR) (l2.map SrcNpuAccess.pyOAR) =
+      .ok (rangeListsOverlap (l1.filterMap id) (l2.filterMap id)) :=
+  SrcNpuAccess.rlo l1 l2
+
 end VelaVerif.Props.C04Src
